@@ -1,7 +1,8 @@
 (* C14 - Mixed-graph surgery operations meet their set-theoretic definitions.
    This file contains only statements closed by [exact]; the proofs live in Proofs/. *)
 From Coq Require Import List Relations.
-From Y0 Require Import Base.ListSet Graph.Closure Graph.MixedGraph Proofs.ClosureP Proofs.SurgeryP Proofs.DistrictsP.
+From Coq Require Import Permutation.
+From Y0 Require Import Base.ListSet Graph.Closure Graph.MixedGraph Proofs.ClosureP Proofs.SurgeryP Proofs.DistrictsP Proofs.KahnP Proofs.KahnSoundP.
 Import ListNotations.
 
 Section C14.
@@ -96,6 +97,17 @@ Section C14.
     NoDup order /\ set_equiv order (nodes g) /\
     forall u v, In (u, v) (dir g) -> exists i j, index_of u order = Some i /\ index_of v order = Some j /\ i < j.
   Proof. exact (is_topo_spec g order). Qed.
+
+  (* the model's own topological sort (Kahn): an answer enumerates the nodes once each with every edge pointing forward;
+     a graph with a self-loop or a 2-cycle gets no answer *)
+  Theorem C14_topological_sort_is_sound (g : mg) o :
+    NoDup (nodes g) -> topological_sort g = Some o ->
+    Permutation (nodes g) o /\ forall u v, In (u, v) (dir g) -> In u (nodes g) -> In v (nodes g) -> before o u v.
+  Proof. exact (topological_sort_sound g o). Qed.
+
+  Theorem C14_acyclicity_test_rejects_short_cycles (g : mg) :
+    wf g -> is_acyclic g = true -> forall u v, In (u, v) (dir g) -> ~ In (v, u) (dir g).
+  Proof. exact (acyclic_no_2cycle g). Qed.
 End C14.
 
 (* the pinned tree before the repair violated the node clause *)
@@ -117,4 +129,6 @@ Print Assumptions C14_markov_blanket.
 Print Assumptions C14_moralize.
 Print Assumptions C14_pre.
 Print Assumptions C14_is_topo.
+Print Assumptions C14_topological_sort_is_sound.
+Print Assumptions C14_acyclicity_test_rejects_short_cycles.
 Print Assumptions C14_remove_in_edges_old_refuted.
